@@ -32,7 +32,8 @@ STATES = ["connecting", "await_cer", "await_cea", "ready", "ready_idle_soon", "w
           "ready_after_unencodable",     # ready, and a message queued for it earlier could not be encoded
           "ready_backlog"]               # ready; a burst of requests is under way to a busy thread-limited application
 REACTIONS = ["prompt", "late", "never", "close", "dpa_then_close", "handshake_during_stop", "dpa_output_pending",
-             "prompt_error_dpa"]      # the DPA carries a non-success result (with the E bit): a DPA all the same
+             "prompt_error_dpa",      # the DPA carries a non-success result (with the E bit): a DPA all the same
+             "connect_fails_during_stop"]   # (state connecting, peer with two addresses) the pending connect fails in the window
 
 
 def shards(tier, seed):
@@ -58,6 +59,8 @@ class Case:
         for i, (st, _) in enumerate(conns):
             out = st in ("connecting", "await_cea")
             peers.append({"name": f"peer{i + 1}.verif.example", "persistent": out, "reconnect_wait": 10 ** 6,
+                          **({"ips": [f"10.1.0.{i + 1}", f"10.2.0.{i + 1}"]}
+                             if (st, conns[i][1]) == ("connecting", "connect_fails_during_stop") else {}),
                           "timers": {"idle_timeout": 5 if st == "waiting_dwa" else (
                               3 if (st == "ready_idle_soon" or conns[i][1] == "handshake_during_stop") else 10 ** 6)}})
         if reconnect_due:
@@ -84,7 +87,8 @@ class Case:
         h, M, w = self.h, self.M, self.w
         for i, (st, _) in enumerate(self.spec["conns"]):
             if st == "connecting":
-                h.script_connect(f"10.1.0.{i + 1}", 3868, "inprogress-never")
+                h.script_connect(f"10.1.0.{i + 1}", 3868, "inprogress-fail" if self.spec["conns"][i][1] ==
+                                 "connect_fails_during_stop" else "inprogress-never")
         if self.spec["reconnect_due"]:
             h.script_connect("10.1.0.77", 3868, "refused", "ok", "ok")
         w.start()
@@ -269,6 +273,15 @@ class Case:
                             self.witness("shutdown.connection_not_closed_after_dpa", {"conn": i, "iterations": it - j})
                         del dpa_at[i]
                 if it == 2:
+                    # a connect that was pending when stop() was called fails now (the peer has a second address; the
+                    # node is stopping, whatever it would do otherwise)
+                    for i, (st_, re_) in enumerate(spec["conns"]):
+                        if (st_, re_) == ("connecting", "connect_fails_during_stop"):
+                            for s_ in h.pending_connects():
+                                if s_.peer_addr == (f"10.1.0.{i + 1}", 3868):
+                                    s_.complete_connect()
+                                    self.run.cov["pending_connect_failed_during_stop"] = \
+                                        self.run.cov.get("pending_connect_failed_during_stop", 0) + 1
                     # a connection that was still in its capabilities exchange completes it during the shutdown
                     for i, sp in enumerate(self.sp):
                         if sp is None or sp.closed or spec["conns"][i][1] != "handshake_during_stop":
